@@ -10,14 +10,28 @@ CORPUS = [
 ]
 
 
+def _corpus_files():
+    """minimised / recorded failures kept as a corpus that runs first"""
+    import json
+    import os
+
+    d = os.path.join(os.path.dirname(os.path.dirname(os.path.dirname(os.path.abspath(__file__)))), "corpus")
+    out = []
+    for fn in sorted(os.listdir(d)) if os.path.isdir(d) else []:
+        if fn.startswith("C15-") and fn.endswith(".json"):
+            out.append(json.load(open(os.path.join(d, fn)))["scenario"])
+    return out
+
+
 def run(chk):
+    CORPUS.extend(x for x in _corpus_files() if x not in CORPUS)
     return run_life_check(
         chk, "C15", "Properties/C15.v", "fault", LS.mon_c15, 400, 8000,
         "C01 scenarios with a transport fault (EOF or I/O error on read, optionally failing writes) at a random virtual time or after the k-th write, biased to 'queue non-empty' and "
         "'delivery in progress', followed by further API calls on the dead connection and (half the time) close(); with and without a disconnect callback, which sometimes calls close() itself. "
         "distinct by scenario; non-trivial = the fault actually happened and the session has more than 30 events.",
         corpus=CORPUS,
-        assumptions=["'exactly once' is required when no close() was started before connection_lost read the callback", "commands submitted after the queue was drained are not 'still queued' commands"],
+        assumptions=["'exactly once' is required when no close() was started before connection_lost read the callback", "a submission that had read `connected` as True before the loss may still be queued (at most one per calling thread)"],
     )
 
 
